@@ -6,7 +6,7 @@
 From Coq Require Import NArith List Bool.
 Import ListNotations.
 Require Import PV.Scopes.Syntax PV.Scopes.Analysis PV.Scopes.Paths PV.Scopes.Guards.
-Require Import PV.Proofs.ScopesMaps PV.Proofs.ScopesSound PV.Proofs.ScopesWitness.
+Require Import PV.Proofs.ScopesMaps PV.Proofs.ScopesSound PV.Proofs.ScopesUpper PV.Proofs.ScopesWitness.
 Open Scope N_scope.
 
 (* The lower bound at full strength: every definition (or the unbound state) that reaches a
@@ -75,3 +75,24 @@ Example C09_guard_inhabited_with_jumps :
   reported w_brk 8 = [10; 1; 2] /\ reported w_brk 7 = [10; 1; 2].
 Proof. exact w_brk_facts. Qed.
 Print Assumptions C09_guard_inhabited_with_jumps.
+
+(* ---- upper bound.  liberal_reach (Scopes/Paths.v): every statement of a try/with body may raise
+   before and after it, a with statement may raise on entry, every loop may be left at its head
+   after any number of rounds without its else clause. *)
+
+(* the two specifications are nested: strict_reach <= liberal_reach, for every program *)
+Theorem C09_strict_sub_liberal : forall p u d, strict_reach p u d -> liberal_reach p u d.
+Proof. exact strict_sub_liberal. Qed.
+Print Assumptions C09_strict_sub_liberal.
+
+(* the intended statement (guard upper_ok); proved so far for stage 1 only, decided by the
+   differential check for the rest (loops, with, try/except) *)
+Definition C09_reported_sub_liberal_upper_ok_statement : Prop :=
+  forall p u d, upper_ok p = true -> In d (reported p u) -> liberal_reach p u d.
+
+(* stage 1: every program built from assignments, uses, calls, pass, return, raise and if/else
+   without dead code (upper1_ok = upper_ok && flat_b) *)
+Theorem C09_reported_sub_liberal_partial : forall p u d,
+  upper1_ok p = true -> In d (reported p u) -> liberal_reach p u d.
+Proof. exact reported_sub_liberal_flat. Qed.
+Print Assumptions C09_reported_sub_liberal_partial.
